@@ -172,7 +172,7 @@ def canon_param(v):
         cname = v['class'].split('.')[-1]
         kw = dict(OBJ_DEFAULTS.get(cname, {}))
         kw.update(v.get('kwargs') or {})
-        kw = {k: canon_param(x) for k, x in kw.items() if k not in ('verbose', 'debug') and k not in OBJ_IGNORED.get(cname, ())}
+        kw = {k: canon_param(mark_placeholders(x)) for k, x in kw.items() if k not in ('verbose', 'debug') and k not in OBJ_IGNORED.get(cname, ())}
         if cname == 'PSet':
             kw = {k: (sorted(x, key=repr) if isinstance(x, list) else x) for k, x in kw.items()}
         if cname == 'PCb':
@@ -187,6 +187,21 @@ def canon_param(v):
     if isinstance(v, dict):
         return {'$d': {k: canon_param(x) for k, x in v.items()}}
     return V.canon_json(v)
+
+
+_PH = __import__('re').compile(r'\{V[ABC]\}')
+
+
+def mark_placeholders(x):
+    """arguments of object definitions: a placeholder-bearing string reaches the object substituted but is represented in its
+    placeholder form, so (like a placeholder-bearing parameter value) it is not part of the provenance record"""
+    if isinstance(x, str) and (type(x) is not str or _PH.search(x)):
+        return '$PH'
+    if isinstance(x, list):
+        return [mark_placeholders(y) for y in x]
+    if isinstance(x, dict):
+        return {k: mark_placeholders(y) for k, y in x.items()}
+    return x
 
 
 def _strip_hooks(c):
